@@ -206,12 +206,13 @@ type Ctx struct {
 	Pkgs         map[string]*packages.Package // short path: "cty", "cty/set", ...
 	WithControls bool
 
-	prog    *ssa.Program
-	ssaPkgs map[string]*ssa.Package
-	parents map[*ast.File]map[ast.Node]ast.Node
-	cfgs    map[*ast.BlockStmt]*FuncCFG
-	decls   map[string]map[string]*ast.FuncDecl
-	own     *Own
+	prog      *ssa.Program
+	ssaPkgs   map[string]*ssa.Package
+	parents   map[*ast.File]map[ast.Node]ast.Node
+	cfgs      map[*ast.BlockStmt]*FuncCFG
+	decls     map[string]map[string]*ast.FuncDecl
+	own       *Own
+	stdlibRes *stdlibResult
 }
 
 type Variant struct {
